@@ -459,3 +459,26 @@ Fixpoint verify_rrsets (l : ledger) (sets : list (list (nat * option nat))) : le
 Definition sig_shape_bound (K Rl : N) (sets : list (list (nat * option nat))) : N :=
   fold_right (fun sigs a => N.min Rl (fold_right (fun s b => N.min K (N.of_nat (fst s)) + b) 0 sigs) + a) 0 sets.
 
+
+(* ------------------------------------------------------------------ Part G: configuration -> policy *)
+
+(* MustRecursionWorkPolicyFromConfig after RecursionFirewallConfig.Normalize/Validate.
+   mode text: 0 omitted, 1 "off", 2 "shadow", 3 "enforce", anything else is rejected (panic).
+   limits in struct order; 0 = omitted = the default. *)
+Definition cfg_limit (v dflt : N) : N := if v =? 0 then dflt else v.
+Definition policy_of_config (mode_text : N) (lims : list N) : option policy :=
+  let m := if mode_text =? 0 then Some mode_shadow else if mode_text =? 1 then Some mode_off
+           else if mode_text =? 2 then Some mode_shadow else if mode_text =? 3 then Some mode_enforce else None in
+  match m with
+  | None => None
+  | Some mode =>
+    Some (mk_T_RecursionWorkPolicy mode
+            (cfg_limit (nth 0 lims 0) default_max_outbound) (cfg_limit (nth 1 lims 0) default_max_internal)
+            (cfg_limit (nth 2 lims 0) default_max_dnskey_candidates) (cfg_limit (nth 3 lims 0) default_max_rrset_signature_checks)
+            (cfg_limit (nth 4 lims 0) default_max_signature_checks) (cfg_limit (nth 5 lims 0) default_max_ds_digests)
+            (cfg_limit (nth 6 lims 0) default_max_nsec3_hashes) (cfg_limit (nth 7 lims 0) default_max_concurrent_crypto))
+  end.
+Definition policy_eqb (a b : policy) : bool :=
+  (p_mode a =? p_mode b) && (p_max_out a =? p_max_out b) && (p_max_int a =? p_max_int b) && (p_max_key a =? p_max_key b) &&
+  (p_max_rrsig a =? p_max_rrsig b) && (p_max_sig a =? p_max_sig b) && (p_max_ds a =? p_max_ds b) &&
+  (p_max_n3 a =? p_max_n3 b) && (p_max_cc a =? p_max_cc b).
